@@ -40,6 +40,9 @@ def real_fun(name, orig=None, numpy_like=False):
             if isinstance(x, Unknown):
                 return Unknown(name)
             if contains_sym(x):
+                import numpy as _np
+                if isinstance(x, (list, tuple)) or (isinstance(x, _np.ndarray) and x.ndim == 1):
+                    return _np.array([f(interp, xi) for xi in x], dtype=object)
                 raise Unsupported("%s of container" % name)
             return (orig or getattr(math, name))(x, *rest, **kw)
         if name == "log":
@@ -748,6 +751,15 @@ def install(interp):
             return np.asarray(a, *rest, **kw)
         r(np.array, np_array)
         r(np.asarray, np_asarray)
+
+        def np_abs(interp, a, *rest, **kw):
+            if isinstance(a, Sym):
+                return abs(a)
+            if contains_sym(a):
+                return np.array([abs(x) for x in a], dtype=object)
+            return np.abs(a, *rest, **kw)
+        r(np.abs, np_abs)
+        r(np.absolute, np_abs)
 
         def np_opaque(name):
             def f(interp, *args, **kw):
